@@ -7,6 +7,7 @@ Next == /\ c < Len(BTab) /\ c' = c + 1
         /\ PrintT(<<"CASE", ToJson([id |-> BTab[c'].id, n |-> BTab[c'].n, p |-> BTab[c'].p,
                                      r2 |-> [k \in 1..Len(BTab[c'].r2) |-> BTab[c'].r2[k].w1],
                                      r1 |-> [k \in 1..Len(BTab[c'].r1) |-> [w1 |-> BTab[c'].r1[k].w1,
-                                                                              js |-> [i \in 1..Len(BTab[c'].r1[k].js) |-> BTab[c'].r1[k].js[i].j]]]])>>)
+                                                                              js |-> [i \in 1..Len(BTab[c'].r1[k].js) |-> BTab[c'].r1[k].js[i].j]]],
+                                     rt |-> [k \in 1..Len(BTab[c'].rt) |-> [w1 |-> BTab[c'].rt[k].w1, probe |-> BTab[c'].rt[k].probe, y |-> BTab[c'].rt[k].y]]])>>)
 Spec == Init /\ [][Next]_c
 =============================================================================
